@@ -51,8 +51,7 @@ OBLIGATIONS = [
     "SkVerif.C11.trend_history_eq_fresh",
     "SkVerif.C11.es_forwards_every_option",
     "SkVerif.C11.ets_forwards_every_option",
-    "SkVerif.C11.theta_wraps_ses_partial",
-    "SkVerif.C11.theta_zero_level_witness",
+    "SkVerif.C11.theta_wraps_ses",
 ]
 TRUSTED = ["hand-written object-state model SkVerif/Model/History.lean (which attributes fit overwrites, which survive set_params / refit)",
            "hand-written models SkVerif/Model/Naive.lean (naive.py + _BaseWindowForecaster paths of _sktime.py) and SkVerif/Model/Trend.lean "
